@@ -42,6 +42,14 @@ impl ExitStatus {
             _ => None,
         }
     }
+    /// `ExitStatusExt::signal`
+    pub fn signal(&self) -> Option<i32> {
+        match self.0 {
+            ExitKind::Code(_) => None,
+            ExitKind::Aborted(_) => Some(6),
+            ExitKind::Killed => Some(9),
+        }
+    }
 }
 
 impl std::fmt::Display for ExitStatus {
